@@ -33,7 +33,7 @@ REQUIRED_THEOREMS = ['Yaql.Props.C13.' + n for n in (
     'mem_union mem_intersect mem_difference mem_symmetricDifference union_comm union_assoc intersect_comm '
     'intersect_assoc union_absorb intersect_absorb difference_is_complement symmetricDifference_eq SetInv_ops '
     'get_set combineDicts_right_biased combineDicts_assoc get_delete delete_then_containsKey mergeWith_disjoint '
-    'memorize_same_elements unpack_binds_positional unpack_binds_named unpack_first '
+    'memorize_same_elements unpack_binds unpack_binds_positional unpack_binds_named unpack_first '
     'mapM_pure filterM_pure flatMapM_pure takeWhileM_pure dropWhileM_pure distinctM_pure findM_pure reduceM_pure '
     'scanM2_pure groupsM_pure sortRun_pure run_where run_select run_take run_skip run_reverse run_distinct run_orderBy_iter'
 ).split()]
